@@ -168,9 +168,16 @@ class Executor(ResolutionContext):
             self.instrumentation.on_field_end(
                 parent_value, self.context_value, info
             )
-            return self.complete_value(
-                field_definition.type, nodes, path, info, res
-            )
+            try:
+                return self.complete_value(
+                    field_definition.type, nodes, path, info, res
+                )
+            except ResolverError as err:
+                # Raised while the value is consumed (e.g. by a generator, a
+                # type resolver or a custom scalar): a failure of this field,
+                # whose end hook has already fired.
+                self.add_error(err, path, node)
+                return None
 
         try:
             coerced_args = self.argument_values(field_definition, node)
